@@ -181,11 +181,16 @@ static void make_item(vh_rng* r, struct item* it, int kind) {
         }
         case SH_TUPLE: {
           var c = new(Tuple);
-          int n = (int)vh_below(r, 4); size_t o = 0; char inner[600]; inner[0] = 0;
+          int n = (int)vh_below(r, 6); size_t o = 0; char inner[600]; inner[0] = 0;
+          char texts[6][60]; int repeated = 0;
           for (int i = 0; i < n; i++) {
-            if (vh_chance(r, 50)) { int64_t v = vh_range(r, -99, 99); push(c, new(Int, $I(v))); o += (size_t)snprintf(inner + o, sizeof inner - o, "%s%" PRId64, i ? ", " : "", v); }
-            else { char b[12]; rand_bytes(r, b, 8); char q[60]; ref_show_string(b, q, sizeof q); push(c, new(String, $S(b))); o += (size_t)snprintf(inner + o, sizeof inner - o, "%s%s", i ? ", " : "", q); }
+            /* a Tuple holds references: the same object may sit in several positions, the last one included */
+            if (i > 0 && vh_chance(r, 35)) { int j = (int)vh_below(r, (uint64_t)i); push(c, get(c, $I(j))); strcpy(texts[i], texts[j]); repeated = 1; }
+            else if (vh_chance(r, 50)) { int64_t v = vh_range(r, -99, 99); push(c, new(Int, $I(v))); snprintf(texts[i], sizeof texts[i], "%" PRId64, v); }
+            else { char b[12]; rand_bytes(r, b, 8); ref_show_string(b, texts[i], sizeof texts[i]); push(c, new(String, $S(b))); }
+            o += (size_t)snprintf(inner + o, sizeof inner - o, "%s%s", i ? ", " : "", texts[i]);
           }
+          if (repeated) { vh_count("shown_tuples_holding_one_object_twice"); }
           it->arg = c;
           snprintf(ind, sizeof ind, "tuple(%s)", inner);
           break;
